@@ -40,6 +40,8 @@ package query
 //@   property C14 C19
 //@   ownwrites E:parser.QueryExpression# E:parser.Statement#
 //@   safety
+//@   ensures [the-conversion-hands-back-a-new-value-never-its-argument] result == value.null || fresh(result)
+//@   modifies fresh
 
 //@ func DatetimeFormat
 //@   property C14 C19
